@@ -467,6 +467,10 @@ def ie_cases(rng, count):
         ty = rng.choice(["gradnorm"] * 6 + ["gradinf", "absdeltae", "stochastic", "deltae"])
         r0 = float(np.linalg.norm(case["x"]))
         case["ctrl"] = _controller(rng, ty, n, r0, r0, 0.0, -r0 * r0, False)
+        if case["ctrl"]["limit"] is not None and rng.random() < 0.4:
+            case["reuse"] = True          # second application of the same InversionEnabler (same controller object)
+            if rng.random() < 0.5 and ty == "gradnorm":
+                case["ctrl"]["level"] = 2
         res.append(case)
     return res
 
